@@ -440,6 +440,7 @@ def run(report, p):
     r8.instance(None, None, f"{nmod} other modification site(s) of MHLChain.generations")
 
     # ---- rules shared with other properties (same mechanism, same rule, reported under every property it can break)
+    include_rules(report, p, 'c03', ['R3.17'], 'the refusal codes are raised through the `errors` module on early paths')
     include_rules(report, p, 'c06', ['R6.4'], 'a manifest is checked against the digest taken when it was written: the chain rewrite copies the existing entries verbatim (it never re-hashes an old manifest, which would bless a later modification)')
     include_rules(report, p, 'c03', ['R3.11'], "the loader's and the commands' verdicts are reported through the logger on the way to the exit code")
     include_rules(report, p, 'c01', ['R1.1', 'R1.4'], 'manifest tampering is detected by the c4 digest of the complete manifest file')
